@@ -151,7 +151,7 @@ Definition ex_p1 : nprog :=
 Definition ex_p2 : nprog :=
   [(mkSN 99 [] [52] [], [LNewline; LLine [32; 94]; LHash 32 [99]]);
    (mkSN 100 [43] [56; 46] [32; 32], [LSep 59; LBlock [32; 120; 10]; LSep 12288; LHash 45 []]);
-   (mkSN 65349 [] [] [], [LSep 13; LNewline])].
+   (mkSN 65349 [] [] [13], [LNewline])].      (* CR directly after a note belongs to the note's blanks: the length reader skips it *)
 Example C18_notes_example :
   nprog_ok ex_p1 [] 0 = true /\ nprog_ok ex_p2 [] (0 + items_lines [LBlock [120]]) = true /\
   print_nprog ex_p1 = zs "c4 d+8.|e" /\
